@@ -391,10 +391,18 @@ func (l *lexer) scanName() token {
 			break
 		}
 
-		// ...or anything that looks like an operator.
+		// ...or anything that looks like an operator. The one
+		// exception is a '!' or '~' at the very start of a name:
+		// these only begin two-character operators and are not
+		// symbols in their own right, so next() hands them to
+		// scanName. They must be consumed here, otherwise the
+		// name would be empty and the lexer would never advance.
 		if lookupSymbol1(ch) > 0 || lookupSymbol2(ch) != nil {
-			l.backup()
-			break
+			first := !isVar && l.current-l.width == l.start
+			if !first || lookupSymbol1(ch) > 0 {
+				l.backup()
+				break
+			}
 		}
 	}
 
@@ -476,10 +484,15 @@ func (l *lexer) acceptRunes2(r1, r2 rune) bool {
 }
 
 func (l *lexer) accept(isValid func(rune) bool) bool {
+	w := l.width
 	if isValid(l.nextRune()) {
 		return true
 	}
 	l.backup()
+	// Restore the width of the previously read rune so that
+	// a subsequent backup by the caller undoes that rune and
+	// not the one that was just rejected.
+	l.width = w
 	return false
 }
 
